@@ -65,24 +65,22 @@ fn c16_pred_semantics() {
     assert!(!p.is_wildcard() || h.matches(&p), "wildcard predicate does not match a hop");
 }
 
+/// ACL with exactly E entries (shape), all entry fields, the default and 1..H hops symbolic.
 fn acl<const E: usize, const H: usize>() {
-    let n: usize = kani::any();
-    kani::assume(n <= E);
     let k: usize = kani::any();
     kani::assume(k >= 1 && k <= H);
     let default = if kani::any() { AclEntryOperator::Allow } else { AclEntryOperator::Deny };
     let mut ops = [true; E];
     let mut preds = [HopPredicate { isd: Isd(0), asn: None, interfaces: InterfacesPredicate::Any }; E];
-    let mut policy = AclPolicy::new(default);
+    let mut entries = Vec::with_capacity(E);
     let mut i = 0;
     while i < E {
         ops[i] = kani::any();
         preds[i] = any_pred();
-        if i < n {
-            policy = policy.add_entry(if ops[i] { AclEntryOperator::Allow } else { AclEntryOperator::Deny }, preds[i]);
-        }
+        entries.push(AclEntry::new(if ops[i] { AclEntryOperator::Allow } else { AclEntryOperator::Deny }, preds[i]));
         i += 1;
     }
+    let policy = AclPolicy { entries, default };
     let mut hops = [PathPolicyHop { isd_asn: IsdAsn::new(Isd(1), Asn(1)), ingress: 0, egress: 0 }; H];
     let mut i = 0;
     while i < H {
@@ -98,7 +96,7 @@ fn acl<const E: usize, const H: usize>() {
             let mut e = E;
             while e > 0 {
                 e -= 1;
-                if e < n && ref_pred_matches(&preds[e], &hops[h]) {
+                if ref_pred_matches(&preds[e], &hops[h]) {
                     verdict = ops[e];
                 }
             }
@@ -109,24 +107,51 @@ fn acl<const E: usize, const H: usize>() {
         h += 1;
     }
     let got = policy.matches(&hops[..k]);
-    kani::cover!(got && n == E && k == H, "largest instance allowed");
+    kani::cover!(got && k == H, "longest hop sequence allowed");
     kani::cover!(!got && default == AclEntryOperator::Allow, "denied by an entry");
     assert!(got == want, "ACL verdict differs from first-match semantics");
     std::mem::forget(policy);
 }
 
-// verif: prop=C16 tier=quick cap=1200 bound="every ACL with <= 3 entries (operator, ISD, optional AS, interface predicate, wildcards) and either default x every sequence of 1..3 hops" fns="AclPolicy::{matches,add_entry},AclEntry::matches,PathPolicyHop::matches" stubs="none"
+// verif: prop=C16 tier=quick cap=1200 bound="every ACL with exactly 2 entries (operator, ISD, optional AS, interface predicate, wildcards) and either default x every sequence of 1..3 hops" fns="AclPolicy::matches,AclEntry::matches,PathPolicyHop::matches" stubs="none"
+#[kani::proof]
+#[kani::unwind(6)]
+fn c16_acl_e2_h3() {
+    acl::<2, 3>()
+}
+
+// verif: prop=C16 tier=quick cap=1200 bound="every ACL with exactly 3 entries x every sequence of 1..2 hops" fns="AclPolicy::matches" stubs="none"
+#[kani::proof]
+#[kani::unwind(6)]
+fn c16_acl_e3_h2() {
+    acl::<3, 2>()
+}
+
+// verif: prop=C16 tier=quick cap=1200 bound="every ACL with exactly 3 entries x every sequence of 1..3 hops" fns="AclPolicy::matches" stubs="none"
 #[kani::proof]
 #[kani::unwind(6)]
 fn c16_acl_e3_h3() {
     acl::<3, 3>()
 }
 
-// verif: prop=C16 tier=thorough cap=3000 mem=24 bound="every ACL with <= 4 entries x every sequence of 1..5 hops" fns="AclPolicy::matches" stubs="none"
+// verif: prop=C16 tier=thorough cap=3000 mem=30 bound="every ACL with exactly 4 entries x every sequence of 1..5 hops" fns="AclPolicy::matches" stubs="none"
 #[kani::proof]
 #[kani::unwind(8)]
 fn c16_acl_e4_h5() {
     acl::<4, 5>()
+}
+
+// verif: prop=C16 tier=quick cap=300 bound="the empty ACL x every sequence of 1..3 hops: the default decides" fns="AclPolicy::matches" stubs="none"
+#[kani::proof]
+#[kani::unwind(6)]
+fn c16_acl_e0_h3() {
+    let k: usize = kani::any();
+    kani::assume(k >= 1 && k <= 3);
+    let default = if kani::any() { AclEntryOperator::Allow } else { AclEntryOperator::Deny };
+    let policy = AclPolicy::new(default);
+    let hops = [any_hop(), any_hop(), any_hop()];
+    kani::cover!(default == AclEntryOperator::Deny, "deny by default");
+    assert!(policy.matches(&hops[..k]) == (default == AclEntryOperator::Allow), "empty ACL does not apply its default");
 }
 
 /// fmt sink without allocation
@@ -150,7 +175,7 @@ impl std::fmt::Write for Sink {
     }
 }
 
-// verif: prop=C16 tier=quick cap=1500 bound="hop predicates with ISD any u16, AS above the BGP range (colon-hex) or absent, interfaces Any / Either(x) / Both(i,e): display then parse gives the same predicate" fns="HopPredicate::fmt (Display),HopPredicate::from_str,InterfacesPredicate::{fmt,from_str}" stubs="alloc::fmt::format -> empty string (error messages only)"
+// verif: prop=C16 tier=thorough cap=3400 mem=30 bound="hop predicates with ISD any u16, AS above the BGP range (colon-hex) or absent, interfaces Any / Either(x) / Both(i,e): display then parse gives the same predicate" fns="HopPredicate::fmt (Display),HopPredicate::from_str,InterfacesPredicate::{fmt,from_str}" stubs="alloc::fmt::format -> empty string (error messages only)"
 #[kani::proof]
 #[kani::unwind(12)]
 #[kani::stub(alloc::fmt::format, fmt_stub)]
@@ -180,4 +205,29 @@ fn c16_pred_display_parse() {
 
 fn fmt_stub(_args: std::fmt::Arguments<'_>) -> String {
     String::new()
+}
+
+// verif: prop=C16 tier=quick cap=900 bound="every interface predicate Either(x) / Both(i,e) over all u16 values: display then parse gives the same predicate" fns="InterfacesPredicate::{fmt (Display),from_str}" stubs="alloc::fmt::format -> empty string (error messages only)"
+#[kani::proof]
+#[kani::unwind(12)]
+#[kani::stub(alloc::fmt::format, fmt_stub)]
+fn c16_ifaces_display_parse() {
+    let p = if kani::any() {
+        InterfacesPredicate::Either(InterfacePredicate::new(kani::any()))
+    } else {
+        InterfacesPredicate::Both { ingress: InterfacePredicate::new(kani::any()), egress: InterfacePredicate::new(kani::any()) }
+    };
+    let mut s = Sink { b: [0; 40], n: 0 };
+    let r = write!(s, "{}", p);
+    assert!(r.is_ok());
+    let text = unsafe { std::str::from_utf8_unchecked(&s.b[..s.n]) };
+    match InterfacesPredicate::from_str(text) {
+        Ok(q) => {
+            kani::cover!(matches!(q, InterfacesPredicate::Both { .. }), "both-interfaces predicate round-trips");
+            assert!(q == p, "interface predicate changed by display -> parse");
+        }
+        Err(_) => {
+            assert!(false, "displayed interface predicate rejected by the parser");
+        }
+    }
 }
